@@ -133,6 +133,17 @@ Theorem C05_header_cells_aligned : forall widths cells,
   fst (hermes_header widths cells) <= record_width widths.
 Proof. exact hermes_header_aligned_lemma. Qed.
 
+(* a used result folder: the V / Y / C files are truncated when a run opens them, so after any
+   sequence of runs they hold the header lines and records of the LAST run only *)
+Theorem C05_result_file_is_last_run : forall (A : Type) (runs : list (list A)) (file last : list A),
+  after_runs file (runs ++ [last]) = last.
+Proof. exact @after_runs_last. Qed.
+
+(* ... which a writer that does not truncate would not give (old tail kept) *)
+Theorem C05_no_truncation_refuted :
+  exists old new : list nat, write_run_keep old new <> new /\ write_run old new = new.
+Proof. exact keep_tail_refuted_lemma. Qed.
+
 (* non-vacuity: a concrete run satisfying every hypothesis bundle: 28 Dec 1983 .. 5 Jan 1985,
    interval 7, annual date 1 Mar (end year 1985), rotation harvests 28.12.1983, 1.8.1984, 1.9.1985 *)
 Example C05_nonvacuous :
@@ -169,3 +180,5 @@ Print Assumptions C05_header_count_csv.
 Print Assumptions C05_header_and_record_counts.
 Print Assumptions C05_header_too_many_cells.
 Print Assumptions C05_header_cells_aligned.
+Print Assumptions C05_result_file_is_last_run.
+Print Assumptions C05_no_truncation_refuted.
